@@ -1369,3 +1369,120 @@ class BinBytes(SimpleCorr):
                 for cut in (n // 2, n - 16, n - 1):
                     if 0 < cut < n:
                         yield lines[:i] + ["bytes " + h[:2 * cut]] + lines[i + 1:]
+
+
+# =====================================================================================
+# C03 / C04: the document side of the binary format (Spec/BinSpec.v + Spec/Lz4.v, kind binspec)
+# =====================================================================================
+class BinSpec(SimpleCorr):
+    """C03: files the real serializer writes are decoded by the extracted document codec and compared with the source DOM;
+    C04: files the extracted document encoder writes are fed to the real reader.  The comparison is done by
+    `rbxverif binspec-judge` (it needs the reflection database to type the document's wire values), so the generic
+    line-by-line comparison of observations is replaced by: harness run -> modelrun -> harness judge -> oracle lines."""
+    kind = "binspec"
+    rule = ("C03: generated DOMs (forest generator of the binary slice without hostile inputs: database and unknown classes, canonical / "
+            "alias spellings, all binary value types from boundary pools, multi-root selections) x {None, Lz4, Zstd}: Serializer bytes -> "
+            "extracted bspec_decode_gen (own framing, extracted LZ4 block decoder; Zstandard frames inflated through the crate's chunk "
+            "reader: declared non-independent) under the literal and the amended reading of docs/binary.md -> bspec_to_dom -> typed by the "
+            "reflection database -> compared with the source by the C01 normalisation oracle; every structural clause evaluated by the "
+            "extracted boolean functions.  C04: logical files drawn with one primary freedom each (numbering, PRNT order, chunk order, META, "
+            "unknown chunks, service format, narrower numeric columns, truncated / unknown-type PROPs, meaningless bits, LZ4 literal blocks, "
+            "rotation ids or full matrices, all 31 document types) plus combinations -> extracted bspec_encode -> rbx_binary::from_reader -> "
+            "compared with bspec_to_dom; every file additionally re-framed with the real LZ4 / Zstandard compressors (all-lz4, all-zstd, mixed) "
+            "and decoded by bspec_decode itself (self round trip).  non-trivial = forest with >= 2 instances / logical file with >= 1 class; "
+            "distinct by case text")
+    assumptions = ["Zstandard payloads are inflated by the `zstd` crate through rbx_binary's chunk reader (non-independent); LZ4 by the extracted Coq decoder",
+                   "wire values are typed for comparison through rbx_binary::verif::find_property_descriptors and the rbx_types blob codecs "
+                   "(Tags / Attributes / MaterialColors blobs are opaque to docs/binary.md)",
+                   "the document is read with the amendments of BinSpec.bs_amended where it contradicts the implementation; each amendment is "
+                   "reported as a doc-* finding by comparing against the literal reading"]
+
+    def gen_blocks(self, pid, d, tier, seed):
+        self._pid = pid
+        return SimpleCorr.gen_blocks(self, pid, d, tier, seed)
+
+    def gen_cmds(self, seed, tier):
+        only = {"C03": "c03", "C04": "c04"}.get(getattr(self, "_pid", ""), None)
+        n = "700" if tier == "quick" else "30000"
+        return [["--seed", str(seed), "--cases", n] + (["--only", only] if only else [])]
+
+    def run_cases(self, d, blocks, tag):
+        cases = os.path.join(d, tag + ".cases")
+        vlib.write_blocks(cases, blocks)
+        obs, orc, st, mo, orc2, st2 = [os.path.join(d, tag + x) for x in (".impl", ".oracle", ".stats", ".model", ".oracle2", ".stats2")]
+        rc, o, _ = vlib.run([vlib.harness_bin(), "binspec-run", cases, obs, orc, st], timeout=3000)
+        if rc != 0:
+            raise RuntimeError("harness binspec-run failed (rc=%d): %s" % (rc, o[-2000:]))
+        # the extracted functions recurse on lists: big files need a big stack
+        rc, o, _ = vlib.run("ulimit -s unlimited 2>/dev/null || ulimit -s 1000000; exec '%s' binspec '%s' '%s'" % (vlib.MODELRUN, cases, mo), timeout=6000)
+        if rc != 0:
+            raise RuntimeError("modelrun binspec failed: %s" % o[-2000:])
+        rc, o, _ = vlib.run([vlib.harness_bin(), "binspec-judge", cases, mo, orc2, st2], timeout=3000)
+        if rc != 0:
+            raise RuntimeError("harness binspec-judge failed (rc=%d): %s" % (rc, o[-2000:]))
+        stats = json.load(open(st))
+        stats.update(json.load(open(st2)))
+        lines = [l.rstrip("\n") for l in open(orc)] + [l.rstrip("\n") for l in open(orc2)]
+        return (dict(vlib.read_blocks(obs)), dict(vlib.read_blocks(mo)), lines, stats)
+
+    def disagreements(self, blocks, impl, model):
+        out = []
+        for cid, lines in blocks:
+            ml = model.get(cid)
+            if ml is None:
+                out.append((cid, 0, "modelrun printed nothing for the case"))
+            else:
+                bad = [l for l in ml if l.startswith("MODELFAIL")]
+                if bad:
+                    out.append((cid, 0, "the extracted document codec failed on the case: " + bad[0][:160]))
+        return out
+
+    def known_key(self, pid, oracle_line, case_lines):
+        """oracle key -> class key of known-findings.txt; for a C04 case combining several freedoms, a listed freedom among its tags"""
+        w = oracle_line.split(" ")
+        if len(w) < 3:
+            return None
+        key = w[2]
+        known = vlib.known_keys(pid)
+        if key in known:
+            return key
+        for tok in w[3:8]:
+            if tok.startswith("tags="):
+                for t in tok[5:].split("+"):
+                    if t in known:
+                        return t
+        return key
+
+    def shrink_candidates(self, lines):
+        # forest cases: drop a node with its prop lines / a single prop line; logical files: drop one `lf prop` line
+        if "opt mode c04" in lines:
+            for k in range(len(lines) - 1, -1, -1):
+                if lines[k].startswith("lf prop "):
+                    cand = lines[:k] + lines[k + 1:]
+                    # the order key list names PROP chunks by position: drop the last P key
+                    out = []
+                    for l in cand:
+                        if l.startswith("ch order "):
+                            ks = l.split()[2:]
+                            ps = [x for x in ks if x.startswith("P")]
+                            if ps:
+                                last = "P%x" % (len(ps) - 1)
+                                ks = [x for x in ks if x != last]
+                            l = "ch order " + " ".join(ks)
+                        out.append(l)
+                    yield out
+        else:
+            for k in range(len(lines) - 1, -1, -1):
+                if lines[k].startswith("prop "):
+                    # fix the node's property count
+                    j = k
+                    while j >= 0 and not lines[j].startswith("node "):
+                        j -= 1
+                    if j >= 0:
+                        w = lines[j].split(" ")
+                        w[-1] = "%x" % (int(w[-1], 16) - 1)
+                        yield lines[:j] + [" ".join(w)] + lines[j + 1:k] + lines[k + 1:]
+
+
+REGISTRY["C03"] = BinSpec()
+REGISTRY["C04"] = BinSpec()
